@@ -140,6 +140,7 @@ def c05(c):
 
 def c07(c):
     build_both()
+    splan(c)
     c.mc(toy_cfgs(["field"], c.tier))
     ell, dec, st = gen_isqrt_inputs(scale(c.tier, 16, 1))
     c.notes.append("Elligator inputs constructed so that the inner square-root-of-ratio call sees every table-digit class of "
@@ -258,6 +259,14 @@ def c12(c):
                ("fequiv_Fp", scale(c.tier, 3000, 100000), "", "FieldTrace.tla", "cfg/FieldTrace.cfg"),
                ("fqextra", scale(c.tier, 300, 6000), "", "FieldTrace.tla", "cfg/FieldTrace.cfg"),
                ("ell", scale(c.tier, 600, 20000), "", "SessionTrace.tla", "cfg/SessionTrace.cfg")]
+    # the shared calls on CONSTRUCTED inputs as well: Elligator / decoder inputs whose inner square-root call sees every
+    # table-digit class (tools/isqrt_inputs.py), and the structured strings of DecodePlan
+    ell, dec, st = gen_isqrt_inputs(scale(c.tier, 16, 1))
+    plan, nplan = gen_plan("DecodePlan.tla", "cfg/DecodePlan.cfg", "dec")
+    c.notes.append("paired streams on constructed inputs: %s; DecodePlan %d strings" % (st, nplan))
+    streams += [("equivfile", 0, ell, "SessionTrace.tla", "cfg/SessionTrace.cfg"),
+                ("equivfile", 0, dec, "SessionTrace.tla", "cfg/SessionTrace.cfg"),
+                ("equivfile", 0, plan, "SessionTrace.tla", "cfg/SessionTrace.cfg")]
     for (suite, n, arg, module, cfg) in streams:
         la = record("ark", suite, n, arg)
         lm = record("min", suite, n, arg)
@@ -297,11 +306,11 @@ def gadget_cfgs(tier):
 def c13(c):
     build("ark")
     c.mc(gadget_cfgs(c.tier) + [("LazyVar.tla", "cfg/LazyVar.cfg")])
-    plan, n, st = gen_lazy_plan("cfg/LazyPlan5.cfg" if c.tier == "thorough" else "cfg/LazyPlan.cfg")
+    plan, n, st = gen_lazy_plans(["cfg/LazyPlan5.cfg", "cfg/LazyPlanSel4.cfg"] if c.tier == "thorough" else ["cfg/LazyPlan.cfg", "cfg/LazyPlanSel.cfg"])
     c.states += st
     c.transitions += st
-    c.notes.append("LazyVar: TLC enumerated %d call sequences over {compress, cs, value, double_in_place, negate, +=, -=} from both initial states; all replayed into the real gadget" % n)
-    c.exhaustive_parts.append("every sequence of <= 4 (thorough: 5) accessor / in-place-operation calls x {from encoding, from element}; pure accessor sequences also on identity / invalid / random inputs")
+    c.notes.append("LazyVar: TLC enumerated %d call sequences over {compress, cs, value, double_in_place, negate, +=, -=, select-other, select-self} from both initial states; all replayed into the real gadget" % n)
+    c.exhaustive_parts.append("every sequence of <= 4 (thorough: 5) accessor / in-place-operation calls, and of <= 3 (thorough: 4) calls including conditional selection against a second variable with a cached encoding, x {from encoding, from element}; pure accessor sequences also on identity / invalid / random inputs")
     for cmd in apalache_inductive("LazyVarInd.tla", "Init", "IndInit", "IndInv", "Safety"):
         c.tlc_cmds.add(cmd)
     c.notes.append("LazyVarInd: cache coherence / single transition per value / pair completeness hold for UNBOUNDED call sequences "
